@@ -12,9 +12,11 @@ namespace SciVerif.C19
 /-! ## the bracket machine: one pass over the characters, no fuel
 
 `{1, 2, {3}}`-like initialisers (any bracket pair).  A token is either bare (no delimiter
-characters) or one double-quoted string without an inner quote. -/
+characters) or one double-quoted string literal; inside a literal a quote is written `\"`
+(`Quoting.backslash`: a backslash takes the next character with it) or `""` (`Quoting.doubled`:
+a quote directly after the closing quote re-opens the literal). -/
 
-inductive Mode | bare | inStr | strDone
+inductive Mode | bare | inStr | esc | strDone
   deriving DecidableEq, Repr
 
 structure MSt where
@@ -35,13 +37,18 @@ def MSt.flush (s : MSt) : MSt :=
   | _ :: _, f :: rest => { s with stack := (Tree.leaf s.tok.reverse :: f) :: rest, tok := [], mode := .bare }
   | _ :: _, [] => s.fail
 
-def mstep (o c : Char) (s : MSt) (ch : Char) : MSt :=
+def mstep (q : Quoting) (o c : Char) (s : MSt) (ch : Char) : MSt :=
   if s.bad then s
   else match s.mode with
-  | .inStr => { s with tok := ch :: s.tok, mode := if ch = '"' then .strDone else .inStr }
+  | .esc => { s with tok := ch :: s.tok, mode := .inStr }
+  | .inStr =>
+    { s with tok := ch :: s.tok,
+             mode := if ch = '"' then .strDone else if ch = '\\' ∧ q = .backslash then .esc else .inStr }
   | m =>
     if ch = '"' then
-      (if s.tok = [] then { s with tok := [ch], mode := .inStr } else s.fail)
+      (if s.tok = [] then { s with tok := [ch], mode := .inStr }
+       else if m = .strDone ∧ q = .doubled then { s with tok := ch :: s.tok, mode := .inStr }
+       else s.fail)
     else if ch = o then
       (let s' := s.flush; { s' with stack := [] :: s'.stack })
     else if ch = c then
@@ -53,19 +60,19 @@ def mstep (o c : Char) (s : MSt) (ch : Char) : MSt :=
     else if m = .strDone then s.fail
     else { s with tok := ch :: s.tok }
 
-def mrun (o c : Char) (s : MSt) (text : Str) : MSt := text.foldl (mstep o c) s
+def mrun (q : Quoting) (o c : Char) (s : MSt) (text : Str) : MSt := text.foldl (mstep q o c) s
 
 /-- all top-level items of a text -/
-def parseItems (o c : Char) (text : Str) : Option (List TokTree) :=
-  let s := (mrun o c MSt.init text).flush
-  if s.bad ∨ s.mode = .inStr then none
+def parseItems (q : Quoting) (o c : Char) (text : Str) : Option (List TokTree) :=
+  let s := (mrun q o c MSt.init text).flush
+  if s.bad ∨ s.mode = .inStr ∨ s.mode = .esc then none
   else match s.stack with
     | [top] => some top.reverse
     | _ => none
 
 /-- exactly one item -/
-def parseInit (o c : Char) (text : Str) : Option TokTree :=
-  match parseItems o c text with
+def parseInit (q : Quoting) (o c : Char) (text : Str) : Option TokTree :=
+  match parseItems q o c text with
   | some [t] => some t
   | _ => none
 
@@ -74,32 +81,46 @@ def parseInit (o c : Char) (text : Str) : Option TokTree :=
 def floatChar (c : Char) : Bool :=
   (48 ≤ c.toNat ∧ c.toNat ≤ 57) ∨ c = '.' ∨ c = 'e' ∨ c = '+' ∨ c = '-'
 
-def cleanStrChar (c : Char) : Bool := c ≠ '"' ∧ c ≠ '\\'
+/-- the characters of a literal after its opening quote, up to and including the closing quote:
+    the string the compiler stores.  Escapes other than the ones the exporters write (`\\n`, …) are
+    not covered (`none`). -/
+inductive UMode | normal | afterBackslash | afterQuote
+  deriving DecidableEq, Repr
 
-/-- strip the enclosing quotes of a string token (body without quote / backslash) -/
-def unquote : Str → Option Str
-  | '"' :: r =>
-    match r.reverse with
-    | '"' :: b => if b.all cleanStrChar then some b.reverse else none
-    | _ => none
+def unescGo (q : Quoting) : UMode → Str → Option Str
+  | .normal, [] => none
+  | .normal, ch :: r =>
+    if ch = '"' then unescGo q .afterQuote r
+    else if ch = '\\' ∧ q = .backslash then unescGo q .afterBackslash r
+    else (unescGo q .normal r).map (ch :: ·)
+  | .afterQuote, [] => some []
+  | .afterQuote, d :: r => if q = .doubled ∧ d = '"' then (unescGo q .normal r).map ('"' :: ·) else none
+  | .afterBackslash, [] => none
+  | .afterBackslash, d :: r => if d = '"' ∨ d = '\\' then (unescGo q .normal r).map (d :: ·) else none
+
+def unescBody (q : Quoting) (s : Str) : Option Str := unescGo q .normal s
+
+/-- the value of a string-literal token -/
+def unquote (q : Quoting) : Str → Option Str
+  | '"' :: r => unescBody q r
   | _ => none
 
-def readScalar (k : Kind) (tru fls : Str) (tok : Str) : Option Scalar :=
+def readScalar (q : Quoting) (k : Kind) (tru fls : Str) (tok : Str) : Option Scalar :=
   match k with
   | .bool => if tok = tru then some (.b true) else if tok = fls then some (.b false) else none
   | .int | .uint => (readInt tok).map .i
   | .float => if tok ≠ [] ∧ tok.all floatChar then some (.f tok) else none
-  | .str => (unquote tok).map .s
+  | .str => (unquote q tok).map .s
 
 mutual
-def interp (k : Kind) (tru fls : Str) : TokTree → Option Val
-  | .leaf t => (readScalar k tru fls t).map .leaf
-  | .arr ts => (interpList k tru fls ts).map .arr
-def interpList (k : Kind) (tru fls : Str) : List TokTree → Option (List Val)
+def interp (q : Quoting) (k : Kind) (tru fls : Str) : TokTree → Option Val
+  | .leaf t => (readScalar q k tru fls t).map .leaf
+  | .arr ts => (interpList q k tru fls ts).map .arr
+def interpList (q : Quoting) (k : Kind) (tru fls : Str) : List TokTree → Option (List Val)
   | [] => some []
   | t :: ts => do
-    let v ← interp k tru fls t
-    let vs ← interpList k tru fls ts
+    let v ← interp q k tru fls t
+    let vs ← interpList q k tru fls ts
     some (v :: vs)
 end
 
@@ -164,21 +185,28 @@ def dropLastChar? (c : Char) (s : Str) : Option Str :=
 
 /-! ### C / C++ -/
 
+def stripConst (l : Str) : Option Str :=
+  match dropPrefix? (cs!"constexpr ") l with
+  | some r => some r
+  | none => dropPrefix? (cs!"const ") l
+
+/-- the initialiser of a declaration whose head has been read -/
+def readInit (q : Quoting) (o c : Char) (backend decl name : Str) (dims : List Nat) (body : Str) : Option Sym := do
+  let tree ← parseInit q o c body
+  let sh ← rectShape tree
+  if sh ≠ dims then none else
+  let (k, _) ← targetKind backend decl
+  let v ← interp q k (cs!"true") (cs!"false") tree
+  some ⟨name, decl, dims, false, v⟩
+
 def readConstLine (backend : Str) (l : Str) : Option Sym := do
-  let r ← match dropPrefix? (cs!"constexpr ") l with
-    | some r => some r
-    | none => dropPrefix? (cs!"const ") l
+  let r ← stripConst l
   let (decl, r) ← matchType (targets backend) r
   let (name, r) := r.span (fun c => c ≠ '[' ∧ c ≠ ' ')
   let (dims, r) ← parseDims (r.length + 1) r
   let r ← dropPrefix? (cs!" = ") r
   let body ← dropLastChar? ';' r
-  let tree ← parseInit '{' '}' body
-  let sh ← rectShape tree
-  if sh ≠ dims then none
-  let (k, _) ← targetKind backend decl
-  let v ← interp k (cs!"true") (cs!"false") tree
-  some ⟨name, decl, dims, false, v⟩
+  readInit .backslash '{' '}' backend decl name dims body
 
 def macroDecl : Str := cs!"macro"
 
@@ -188,7 +216,7 @@ def readDefineLine (l : Str) : Option Sym := do
   let (name, r) := r.span (fun c => c ≠ ' ')
   let tok ← dropPrefix? [' '] r
   let v ← match tok with
-    | '"' :: _ => (unquote tok).map Scalar.s
+    | '"' :: _ => (unquote .backslash tok).map Scalar.s
     | _ => match readInt tok with
       | some i => some (Scalar.i i)
       | none => if tok ≠ [] ∧ tok.all floatChar then some (Scalar.f tok) else none
@@ -243,12 +271,7 @@ def readRustLine (l : Str) : Option Sym := do
   let dims := inner.reverse          -- array types nest outermost-first
   let r ← dropPrefix? (cs!" = ") r
   let body ← dropLastChar? ';' r
-  let tree ← parseInit '[' ']' body
-  let sh ← rectShape tree
-  if sh ≠ dims then none
-  let (kd, _) ← targetKind bRust decl
-  let v ← interp kd (cs!"true") (cs!"false") tree
-  some ⟨name, decl, dims, false, v⟩
+  readInit .backslash '[' ']' bRust decl name dims body
 
 def readRust (text : Str) : Option (List Sym) :=
   if text = [] then some [] else (lines text).mapM readRustLine
@@ -336,26 +359,35 @@ def strLensList : List Val → List Nat
   | v :: vs => strLens v ++ strLensList vs
 end
 
+/-- `[character(len=n) :: "a", "b"]` : drop the type specification of an array constructor;
+    the flag says whether there was one -/
+def stripTypeSpec (decl : Str) (ts : List TokTree) : List TokTree × Bool :=
+  match ts with
+  | .leaf d :: .leaf cc :: rest => if d = decl ∧ cc = [':', ':'] then (rest, true) else (ts, false)
+  | _ => (ts, false)
+
 def readFortranLine (l : Str) : Option Sym := do
   let r ← dropPrefix? [' ', ' '] l
   let (decl, r) := r.span (fun c => c ≠ ',')
   let (k, bits) ← fortranKind decl
   let r ← dropPrefix? [',', ' '] r
-  let finish (name : Str) (dims : List Nat) (tree : TokTree) : Option Sym := do
-    let v ← interp k (cs!".true.") (cs!".false.") tree
+  let finish (name : Str) (dims : List Nat) (tree : TokTree) (typed : Bool) : Option Sym := do
+    let v ← interp .doubled k (cs!".true.") (cs!".false.") tree
     if ¬ fitsInt bits v then none
+    -- without a type specification all strings of a constructor must have one length; none may
+    -- be longer than the declared length (it would be cut)
     match strLens v with
     | [] => pure ()
-    | n :: ns => if ns.all (· = n) ∧ n ≤ bits then pure () else none
+    | n :: ns => if (typed ∨ ns.all (· = n)) ∧ (n :: ns).all (· ≤ bits) then pure () else none
     some ⟨name, decl, dims, decide (k = Kind.float ∧ bits > 32), v⟩
   match dropPrefix? (cs!"parameter :: ") r with
   | some r =>
     let (name, r) := r.span (fun c => c ≠ ' ')
     let r ← dropPrefix? (cs!" = ") r
     let body ← dropLastChar? ';' r
-    let tree ← parseInit '[' ']' body
+    let tree ← parseInit .doubled '[' ']' body
     match tree with
-    | .leaf _ => finish name [] tree
+    | .leaf _ => finish name [] tree false
     | .arr _ => none
   | none =>
     let r ← dropPrefix? (cs!"dimension (") r
@@ -366,26 +398,31 @@ def readFortranLine (l : Str) : Option Sym := do
       let (name, r) := r.span (fun c => c ≠ ' ')
       let r ← dropPrefix? (cs!" = ") r
       let body ← dropLastChar? ';' r
-      let tree ← parseInit '[' ']' body
+      let tree ← parseInit .doubled '[' ']' body
+      let (elems, typed) ← match tree with
+        | .arr ts => some (stripTypeSpec decl ts)
+        | .leaf _ => none
+      let tree := Tree.arr elems
       let sh ← rectShape tree
       if sh ≠ dims ∨ dims.length ≠ 1 then none
-      finish name dims tree
+      finish name dims tree typed
     | none =>
       let r ← dropPrefix? (cs!"), parameter :: ") r
       let (name, r) := r.span (fun c => c ≠ ' ')
       let r ← dropPrefix? (cs!" = reshape(") r
       let body ← dropLastChar? ')' r
-      let items ← parseItems '[' ']' body
+      let items ← parseItems .doubled '[' ']' body
       let (src, shp, ord) ← match items with
         | [Tree.arr src, shp] => some (src, shp, none)
         | [Tree.arr src, shp, Tree.leaf o, ord] =>
           if o = cs!"order=" then (natList ord).map (fun x => (src, shp, some x)) else none
         | _ => none
+      let (src, typed) := stripTypeSpec decl src
       let dims2 ← natList shp
       if dims2 ≠ dims then none
       let toks ← src.mapM leafTok
       let tree ← reshapeF toks dims ord
-      finish name dims tree
+      finish name dims tree typed
 
 def readFortran (modname : Str) (text : Str) : Option (List Sym) := do
   let ls := lines text
@@ -418,14 +455,31 @@ def bashSafeBare (c : Char) : Bool :=
   (48 ≤ c.toNat ∧ c.toNat ≤ 57) ∨ (65 ≤ c.toNat ∧ c.toNat ≤ 90) ∨ (97 ≤ c.toNat ∧ c.toNat ≤ 122) ∨
   c = '.' ∨ c = '-' ∨ c = '+' ∨ c = '_'
 
-def bashSafeQuoted (c : Char) : Bool := c ≠ '"' ∧ c ≠ '\\' ∧ c ≠ '$' ∧ c ≠ '`' ∧ c ≠ '!'
+/-- inside double quotes a backslash is removed only before these -/
+def bashDqSpecial (c : Char) : Bool := c = '\\' ∨ c = '"' ∨ c = '$' ∨ c = '`'
+
+/-- the text after an opening double quote: (value after quote removal, text after the closing quote).
+    `$` and a backquote start an expansion: not covered.  (`!` is literal: the file is sourced by a
+    non-interactive shell.) -/
+def bashDqGo : Bool → Str → Option (Str × Str)
+  | _, [] => none
+  | false, ch :: r =>
+    if ch = '"' then some ([], r)
+    else if ch = '\\' then bashDqGo true r
+    else if ch = '$' ∨ ch = '`' then none
+    else (bashDqGo false r).map (fun x => (ch :: x.1, x.2))
+  | true, d :: r =>
+    if bashDqSpecial d then (bashDqGo false r).map (fun x => (d :: x.1, x.2))
+    else (bashDqGo false r).map (fun x => ('\\' :: d :: x.1, x.2))      -- the backslash stays
+
+def bashDq (s : Str) : Option (Str × Str) := bashDqGo false s
 
 /-- one word after quote removal (only forms without expansion) -/
 def bashWordValue (w : Str) : Option Str :=
   match w with
   | '"' :: r =>
-    match r.reverse with
-    | '"' :: b => if b.all bashSafeQuoted then some b.reverse else none
+    match bashDq r with
+    | some (v, []) => some v
     | _ => none
   | _ => if w.all bashSafeBare then some w else none
 
@@ -434,11 +488,9 @@ def bashWords : Nat → Str → Option (List Str)
   | 0, _ => none
   | _ + 1, [] => some []
   | fuel + 1, '"' :: r =>
-    let (b, r2) := r.span (fun c => c ≠ '"')
-    if ¬ b.all bashSafeQuoted then none else
-    match r2 with
-    | ['"'] => some [b]
-    | '"' :: ' ' :: r3 => (bashWords fuel r3).map (b :: ·)
+    match bashDq r with
+    | some (v, []) => some [v]
+    | some (v, ' ' :: r3) => (bashWords fuel r3).map (v :: ·)
     | _ => none
   | _ + 1, _ => none
 
